@@ -58,20 +58,21 @@ pub fn make_polygon(lon: f64, lat: f64, n: usize, r: f64, inner: f64, rot: f64, 
 }
 
 /// Reference convex containment: +1 inside, -1 outside, 0 within `margin` (rad) of an edge circle.
+/// Written with differences (v2 - v1, p - v1) so that it keeps its precision for polygons far
+/// smaller than 1e-8 rad: e = v1 x v2 = v1 x (v2 - v1) and e . p = e . (p - v1) since e . v1 = 0.
 fn convex_side(vs: &[[f64; 3]], p: &[f64; 3], margin: f64) -> i32 {
-  let mut c = [0.0; 3];
-  for v in vs {
-    c[0] += v[0];
-    c[1] += v[1];
-    c[2] += v[2];
-  }
   let n = vs.len();
+  let sub = |a: &[f64; 3], b: &[f64; 3]| [a[0] - b[0], a[1] - b[1], a[2] - b[2]];
   let mut inside = true;
   for k in 0..n {
-    let e = cross(&vs[k], &vs[(k + 1) % n]);
+    let v1 = &vs[k];
+    let e = cross(v1, &sub(&vs[(k + 1) % n], v1));
     let norm = (e[0] * e[0] + e[1] * e[1] + e[2] * e[2]).sqrt();
-    let s = dot(&e, &c);
-    let d = dot(&e, p) / norm * if s >= 0.0 { 1.0 } else { -1.0 };
+    // orientation anchor: the sum of the vertices is on the inner side of every edge
+    let s: f64 = vs.iter().map(|v| dot(&e, &sub(v, v1))).sum();
+    // for a point far from the polygon (other hemisphere ...) the plain dot product is the accurate one
+    let far = dot(p, v1) < 0.9;
+    let d = if far { dot(&e, p) } else { dot(&e, &sub(p, v1)) } / norm * if s >= 0.0 { 1.0 } else { -1.0 };
     if d.abs() <= margin {
       return 0;
     }
@@ -147,7 +148,7 @@ pub fn check(q: &PolyQ, part: &mut Part) -> Option<Viol> {
       pts.push((cx, cy));
       for (k, (px, py)) in pts.iter().enumerate() {
         let (l, b) = ref_unproj(*px as f64 / n, *py as f64 / n);
-        let side = convex_side(&vs, &unit_vec(l, b), 1e-9);
+        let side = convex_side(&vs, &unit_vec(l, b), (1e-9f64).min(0.02 * q.radius).max(4e-16));
         part.validated += 1;
         if side < 0 {
           return mk(api, "full-flag-untrue", format!("cell {}/{} flagged full has its 4 vertices and its centre inside the polygon", de, h), format!("its {} ({:e}, {:e}) is outside", if k == 4 { "centre".to_string() } else { format!("vertex #{}", k) }, l, b));
@@ -185,7 +186,7 @@ pub fn check_contains(q: &PolyQ, part: &mut Part) -> Option<Viol> {
   probes.push(((q.lon + 1.0).rem_euclid(TWO_PI), q.lat));
   for (l, b) in probes {
     let p = unit_vec(l, b);
-    let side = convex_side(&vs, &p, 1e-7);
+    let side = convex_side(&vs, &p, (1e-7f64).min(0.02 * q.radius).max(4e-16));
     if side == 0 {
       continue;
     }
@@ -273,7 +274,7 @@ pub fn queries(quick: bool) -> Vec<PolyQ> {
     }
   }
   // mid / large depths: polygons a few cells across, around generic (non-border) centres
-  let deep: &[u8] = if quick { &[11, 17, 24] } else { &[10, 11, 13, 14, 17, 20, 24, 27, 29] };
+  let deep: &[u8] = if quick { &[11, 17, 24, 27, 29] } else { &[10, 11, 13, 14, 17, 20, 24, 27, 29] };
   for &d in deep {
     let cell = PI / 3.0f64.sqrt() / (1u64 << d) as f64; // ~ cell side
     for &(lon, lat) in &[(0.1234, 0.2345), (2.7, -0.3), (3.3, 0.70), (4.4, -0.74), (5.49, 0.0001), (1.0, 1.2), (0.3, -1.1), (PI / 2.0, 0.3)] {
